@@ -93,7 +93,7 @@ def jobs(tier, seed, excluded=()):
     rng = random.Random(seed)
     dom = Dom(int_max=-1, int_cands=["7", "3"], str_mode="cand", str_cands=["p"], hex_cands=["0x1f"], float_cands=["0.25"])
     if tier == "quick":
-        trees, nact, tmo, budget = ["T15", "T09", "T08", "T06", "E_range_cond", "F:menuconfig/kconfigs/Kconfig.pilot_all_scalars"], 2, 150, 2
+        trees, nact, tmo, budget = ["T15", "T09", "T08", "T06", "E_range_cond", "E_range_bound_dep", "F:menuconfig/kconfigs/Kconfig.pilot_all_scalars"], 2, 150, 2
     else:
         trees, nact, tmo, budget = ["T15", "T09", "T08", "T06", "T07", "T03", "T04", "E_range_cond", "E_range_bound_dep"] + ["F:menuconfig/kconfigs/Kconfig." + x for x in ("pilot_all_scalars", "pilot_choice", "pilot_submenu", "indirect_sets", "float", "warning")], 2, 300, 3
     out = []
